@@ -12,9 +12,10 @@
  *     the call was exit/exit_group and ran      -> normal exit
  *     int $0x80 without ia32 emulation          -> SIGSEGV (11), row is skipped by the judge
  *
- * usage: seccomp n|i <hex syscall number>
+ * usage: seccomp n|i|w <hex syscall number>
  *   n : `syscall` instruction, rax = number (zero extended), all six arguments = -1
  *   i : `int $0x80` (i386 ABI entry, seccomp_data.arch = AUDIT_ARCH_I386), all arguments = -1
+ *   w : no system call at all: spin until killed (the harness reads /proc/<pid>/status meanwhile)
  *
  * build: gcc -static -nostdlib -nostartfiles -ffreestanding
  */
@@ -74,6 +75,9 @@ __attribute__((used, noreturn)) static void cmain(long *sp)
 	if (argc < 3)
 		__asm__ volatile("hlt"); /* SIGSEGV: usage error, never a verdict */
 	nr = (unsigned long)parse_hex(argv[2]);
+	if (argv[1][0] == 'w')
+		for (;;)
+			__asm__ volatile("pause");
 	if (argv[1][0] == 'i')
 		r = int80_call(nr);
 	else
